@@ -225,8 +225,10 @@ class Report:
             for n, sig in enumerate(sorted(violations)):
                 if n >= 25:
                     break
-                safe = "".join(c if c.isalnum() or c in "-_." else "_" for c in sig)[:80]
-                path = os.path.join(REPLAYS, "%s_%s_%d.json" % (self.prop, safe, self.seed))
+                import hashlib
+                safe = "".join(c if c.isalnum() or c in "-_." else "_" for c in sig)[:60]
+                path = os.path.join(REPLAYS, "%s_%s_%s_%d.json" % (self.prop, safe,
+                                                                  hashlib.md5(sig.encode()).hexdigest()[:6], self.seed))
                 with open(path, "w") as f:
                     json.dump({"property": self.prop, "signature": sig, "seed": self.seed, "tier": self.tier,
                                "detail": violations[sig]}, f, indent=1, default=str)
